@@ -90,7 +90,11 @@ def strategy(tier):
         st.just('sdisc'), st.just('ev_close'), st.just('ev_tick'),
         # an event and the failure of the transport within one read: the
         # failure is processed before the event's handler task
-        st.just('ev_lose'))
+        st.just('ev_lose'),
+        # a reconnection attempt whose CONNECT reply has been handled (the
+        # namespace's connect handler has run) when the transport fails
+        # again, before the task waiting in connect() has resumed
+        st.just('reconnect_then_lose'))
     asy = st.fixed_dictionaries({
         'aio': st.just(True),
         'groups': st.lists(st.one_of(
@@ -104,7 +108,10 @@ def strategy(tier):
                              ['lose', 'recv'], ['lose', 'recv1'],
                              ['recv1', 'ev_tick'], ['ev', 'sdisc'],
                              ['ev_close'], ['ev_lose', 'recv'],
-                             ['ev_lose', 'recv1'], ['ev_lose']])),
+                             ['ev_lose', 'recv1'], ['ev_lose'],
+                             ['reconnect_then_lose', 'emit'],
+                             ['lose', 'reconnect_then_lose', 'emit'],
+                             ['reconnect_then_lose', 'recv1']])),
             min_size=2, max_size=14 if big else 9),
         'final': st.booleans(),
         # who ends the connection for good at the end of the history: the
@@ -708,6 +715,22 @@ def _check_async(case):
             raise core.HarnessError('simple client did not connect: %r' % t)
         h = holder['h']
         h.take_outbox()
+        spin = {'n': 0, 'at': None}
+        real_emit = h.sio.emit
+
+        async def counted_emit(*a, **k):
+            # an emit() of the simple client that retries without ever
+            # yielding would block the loop (and this check) for ever
+            now = (loop.time(), len(h.tasks))
+            spin['n'] = spin['n'] + 1 if spin['at'] == now else 1
+            spin['at'] = now
+            if spin['n'] > 300:
+                raise core.Abort('emit-spins-without-yielding',
+                                 'emit() of the simple client has retried '
+                                 '%d times without the loop making any '
+                                 'progress' % spin['n'])
+            return await real_emit(*a, **k)
+        h.sio.emit = counted_emit
         arrivals = []
         orig_buf = sc.input_buffer
 
@@ -858,6 +881,38 @@ def _check_async(case):
                         loop.run_until_idle()
                         h.plan[:] = ['fail']
                         h.lose()
+                elif s == 'reconnect_then_lose':
+                    live = [tk for n, tk in h.tasks
+                            if n == '_handle_reconnect' and not tk.done()]
+                    if live and not final[0]:
+                        h.plan[:] = ['ok']
+                        loop.run_until_idle()
+                        loop.advance()
+                        if h.eio.state == 'connected' and \
+                                '/ns' not in h.sio.namespaces:
+                            nconn[0] += 1
+                            for f in wire.frames(wire.CONNECT, '/ns', None,
+                                                 {'sid': 'sid%d' % nconn[0]}):
+                                loop.spawn(h.eio._receive_packet(ep.Packet(
+                                    ep.MESSAGE, f)))
+                            # the packet is read (its handler task is now
+                            # queued); the read loop, which is about to fail,
+                            # is queued right behind it - and so ahead of the
+                            # task in connect(), which the handler will wake
+                            loop.step()
+                            h.plan[:] = ['fail']
+
+                            async def tail():
+                                if '/ns' in h.sio.namespaces and \
+                                        not h.sio.connected:
+                                    labels['loss_right_behind_the_'
+                                           'reconnection'] = True
+                                    labels['nontrivial'] = True
+                                await h.eio._trigger_event(
+                                    'disconnect', h.reason.TRANSPORT_ERROR,
+                                    run_async=False)
+                                await h.eio._reset()
+                            spawned.append(loop.spawn(tail()))
                 elif s in ('reconnect_ok', 'reconnect_fail'):
                     live = [tk for n, tk in h.tasks
                             if n == '_handle_reconnect' and not tk.done()]
@@ -899,6 +954,10 @@ def _check_async(case):
                 n_att = len(h.attempts)
                 dt = loop.spawn(sc.disconnect())
                 loop.run_until_idle()
+                for _ in range(6):
+                    # (an attempt that is in flight is waited for)
+                    if dt.done() or not loop.advance():
+                        break
                 if not dt.done() or dt.exception() is not None:
                     raise Violation('disconnect-failed', repr(dt))
                 for _ in range(4):
@@ -948,6 +1007,8 @@ def _check_async(case):
         for task, before in emits:
             if task.done():
                 exc = task.exception()
+                if isinstance(exc, core.Abort):
+                    raise Violation(exc.kind, str(exc))
                 if exc is not None and not isinstance(
                         exc, socketio.exceptions.DisconnectedError):
                     raise Violation('emit-raised', repr(exc))
